@@ -352,6 +352,11 @@ def strip_comments(s):
     return s
 
 
+def strip_go_comments(s):
+    s = re.sub(r"/\*.*?\*/", "", s, flags=re.S)
+    return re.sub(r"//.*", "", s)
+
+
 def lean_sources_of(module, extra=()):
     """All project-local Lean files the module (transitively) imports."""
     seen, todo = set(), [module] + list(extra)
